@@ -485,15 +485,20 @@ class MatrixSum(Expression):
     def jacobian_row(self, variables: list[Variable]) -> list[Expression] | None:
         """Return Jacobian row in O(n).
 
-        For MatrixSum(X), gradient w.r.t. X[i,j] is 1 for all elements in X,
-        0 for all other variables.
+        For MatrixSum(X), the gradient w.r.t. a variable is the number of cells
+        of X that hold it (1 for an ordinary matrix, 2 for the off-diagonal
+        variables of a symmetric one, which sit in X[i,j] and X[j,i]), and 0 for
+        all other variables.
         """
-        # Only a matrix of plain variables has unit derivatives; for a
+        # Only a matrix of plain variables has constant derivatives; for a
         # MatrixExpression (e.g. (X * Y).sum()) fall back to general autodiff.
         if not isinstance(self.matrix, MatrixVariable):
             return None
-        my_vars = self.matrix.get_variables()
-        return [Constant(1.0) if var in my_vars else Constant(0.0) for var in variables]
+        counts: dict[str, int] = {}
+        for row in self.matrix._variables:
+            for cell in row:
+                counts[cell.name] = counts.get(cell.name, 0) + 1
+        return [Constant(float(counts.get(var.name, 0))) for var in variables]
 
     def __repr__(self) -> str:
         if isinstance(self.matrix, MatrixVariable):
